@@ -61,6 +61,16 @@ fn exec_inner(t: &[&str]) -> Option<String> {
                 Err(e) => full_err(&e),
             })
         }
+        ("head", 3) => {
+            // the in-repo head of `report::decode`: feed id, version, dispatch
+            use gmsol_chainlink_datastreams::report::DecodeError;
+            let p = unhex(t[2])?;
+            Some(match decode(&p) {
+                Err(DecodeError::UnsupportedVersion(v)) => format!("unsupported {v}"),
+                Err(DecodeError::Report(gmsol_chainlink_datastreams::chainlink_data_streams_report::report::base::ReportError::DataTooShort("feed_id"))) => "short".into(),
+                _ => "supported".into(),
+            })
+        }
         ("fromreport", 9) => {
             let ver: u16 = t[2].parse().ok()?;
             let (price, bid, ask): (BigInt, BigInt, BigInt) = (t[3].parse().ok()?, t[4].parse().ok()?, t[5].parse().ok()?);
@@ -129,6 +139,12 @@ fn oracle(req: &str, resp: &str) -> Verdict {
                 }
             }
             Verdict::Bad("blob is not the ABI-described slice of the payload".into())
+        }
+        "head" => {
+            let p = unhex(t[2]).unwrap();
+            let e = if p.len() < 32 { "short".to_string() } else { let v = u16::from_be_bytes([p[0], p[1]]); if [2u16, 3, 7, 8, 11].contains(&v) { "supported".into() } else { format!("unsupported {v}") } };
+            if resp != e { return Verdict::Bad(format!("decode head answered {resp}, expected {e}")); }
+            Verdict::Ok("head")
         }
         "fromreport" => {
             let ver: u16 = t[2].parse().unwrap();
@@ -234,6 +250,7 @@ fn gen_req(r: &mut Rng) -> String {
             let mut b = build_blob(ver, &price, &bid, &ask, obs, lu, st).unwrap();
             match r.below(8) { 0 => { let n = r.below(b.len() as u64 + 1) as usize; b.truncate(n); } 1 => { let i = r.below(b.len() as u64) as usize; b[i] ^= 1 << r.below(8); }
                 2 => { b[0] = r.below(256) as u8; b[1] = r.below(256) as u8; } 3 => { b = { let n = r.below(600) as usize; rand_bytes(r, n) }; } 4 => { let i = 8 * r.below((b.len() / 8) as u64) as usize; for x in &mut b[i..i + 8] { *x = 0xff; } } 5 => { b.extend({ let n = r.below(64) as usize; rand_bytes(r, n) }); } _ => {} }
+            if r.chance(1, 3) { if r.chance(1, 4) { let n = r.below(40) as usize; b.truncate(n); } if b.len() >= 2 && r.chance(1, 2) { b[0] = if r.chance(1, 2) { 0 } else { r.below(256) as u8 }; b[1] = r.below(16) as u8; } return format!("cl head {}", tohex(&b)); }
             format!("cl decode {}", tohex(&b))
         }
         _ => {
